@@ -1,0 +1,15 @@
+//go:build verif
+
+// Contracts for package syntax, read by /verif/engine (govc). This file contains comments only;
+// it is compiled only with -tags verif and adds no code.
+package syntax
+
+//@ func search(subject, sub)
+//@   tags C14, C10
+//@   assigns nothing
+//@   requires nonnil(subject) && nonnil(sub)
+//@   ensures[C14] sound: result >= 0 && len(sub) >= 1 ==> window(subject, result, sub)
+//@   ensures[C14] range: result >= -1 && result <= len(subject)
+//@   loop 0 invariant bounds: 0 <= subOffset && subOffset <= subjectOffset && subjectOffset <= len(subject)
+//@   loop 0 invariant lt: subOffset <= len(sub) && (len(sub) >= 1 ==> subOffset < len(sub))
+//@   loop 0 invariant matched: forall k in 0..subOffset :: eq(subject[subjectOffset-subOffset+k], sub[k])
